@@ -70,6 +70,10 @@ type Cfg struct {
 	NoCtxKinds bool
 	// LateWriters start writing at the moment Close is invoked (ids Writers..).
 	LateWriters int
+	// Factory: build the channel from this factory value (shared with sibling trials running at the
+	// same time); WBase offsets the writer ids so that siblings' payloads are distinguishable.
+	Factory netty.ChannelFactory
+	WBase   int
 }
 
 func (c Cfg) String() string {
@@ -190,8 +194,8 @@ func Scribble(b []byte) {
 // harness waits for logical quiescence (every sender action handed to the
 // executor has returned) and snapshots the logs.
 func Run(cfg Cfg, rng *rand.Rand, watchdog time.Duration) *History {
-	h := &History{Cfg: cfg, Writes: make([][]WriteRec, cfg.Writers+cfg.LateWriters)}
-	opts := mon.RigOpts{Mode: cfg.Mode, Queue: cfg.Queue, Plan: cfg.Plan, QuietTail: true, Wrap: cfg.Wrap}
+	h := &History{Cfg: cfg, Writes: make([][]WriteRec, cfg.WBase+cfg.Writers+cfg.LateWriters)}
+	opts := mon.RigOpts{Mode: cfg.Mode, Queue: cfg.Queue, Plan: cfg.Plan, QuietTail: true, Wrap: cfg.Wrap, Factory: cfg.Factory}
 	if cfg.Closer == 2 {
 		opts.NoPark = true
 		opts.Handlers = []netty.Handler{&closeOnRead{h}}
@@ -209,7 +213,7 @@ func Run(cfg Cfg, rng *rand.Rand, watchdog time.Duration) *History {
 		rig.T.AddFault(mon.Fault{Kind: mon.OpWrite, K: 1, Err: ErrTrialClose})
 	}
 	var wg sync.WaitGroup
-	for w := 0; w < cfg.Writers; w++ {
+	for w := cfg.WBase; w < cfg.WBase+cfg.Writers; w++ {
 		wg.Add(1)
 		wr := rand.New(rand.NewSource(rng.Int63()))
 		go func(w int, wr *rand.Rand) {
@@ -237,7 +241,7 @@ func Run(cfg Cfg, rng *rand.Rand, watchdog time.Duration) *History {
 	if cfg.Closer != 0 {
 		outstanding = 0
 		var lw sync.WaitGroup
-		for w := cfg.Writers; w < cfg.Writers+cfg.LateWriters; w++ {
+		for w := cfg.WBase + cfg.Writers; w < cfg.WBase+cfg.Writers+cfg.LateWriters; w++ {
 			lw.Add(1)
 			wr := rand.New(rand.NewSource(rng.Int63()))
 			go func(w int, wr *rand.Rand) {
